@@ -299,6 +299,17 @@ func (rt *GraphicsPlatform) Text(str string) {
 func (rt *GraphicsPlatform) Gridn(unit float64, color string) {
 	unit = rt.transformX(unit)
 	group := Group{Attr: Attr{Stroke: color}}
+	// The grid is drawn with thin solid lines whatever the pen is. When it
+	// is pushed together with shapes drawn under a non-default pen, it is
+	// nested in a group that carries the pen's width and dash pattern, so
+	// the grid's own group has to undo them.
+	if rt.attr.StrokeWidth != nil && *rt.attr.StrokeWidth != defaultStrokeWidth {
+		thinWidth := defaultStrokeWidth
+		group.StrokeWidth = &thinWidth
+	}
+	if rt.attr.StrokeDashArray != defaultAttr.StrokeDashArray {
+		group.StrokeDashArray = "none"
+	}
 	lineCnt := 0
 	thickWdith := 2.0
 	height := float64(evyHeight * scaleFactor)
